@@ -3,6 +3,10 @@
 
 package zenodb
 
+import "github.com/getlantern/wal"
+
 func verifCount(name string, t *table) {}
 
 func verifPoint(name string) {}
+
+func verifRead(t *table, offset wal.Offset) {}
